@@ -7,7 +7,7 @@ META = {
     "level": "model_checking",
     "technique": "TLA+ spec of crash and restart of core.BlockChain (ChainCrash.tla over Chain.tla) model-checked with TLC; TLC behaviours (chain shape, commit points, snapshot layer, freezer progress, crash points, both schemes) replayed on a real BlockChain over pebble+freezer with stopWithoutSaving, then re-import compared with a never-crashed node",
     "text": "ChainCrash.tla adds to Chain.tla what a crash distinguishes: trie commit points (hash scheme) / disk layer (path scheme), the persistent flat-state layer, chain-freezer progress, and CrashReopen = stopWithoutSaving + NewBlockChain (loadLastState, rewindHead past the snapshot layer, ancient-store truncation). TLC checks over all main/side chain lengths, commit points, freeze thresholds, crash points (up to two crashes) and both schemes with snapshots on/off that after reopening the head state is available, the header head is at or beyond the block head, the number index is consistent, nothing at or below the last persisted state is lost, the ancient store matches the heads, and importing the rest of the main line yields the never-crashed state. TLC-sampled behaviours over longer chains are executed on the real code (pebble + freezer on disk, crash exactly as core/blockchain_repair_test.go) with the projected state compared after every call, followed by re-import of the main line and comparison of head root and account data with a control node.",
-    "note": "Trusts TLC and the projection in harness/cmd/c39. Crash points are call boundaries (import batch, trie commit, snapshot flatten, freezer cycle); torn key-value batches and torn freezer files are not generated (C24/C20 territory). Snap-sync pivots are not modelled. Runs reopen in child processes because log.Crit exits. Index entries of an abandoned branch after a repair (C38-F1) are pending, see NOTES.md.",
+    "note": "Trusts TLC and the projection in harness/cmd/c39. Crash points: call boundaries in the freezer scenarios (import batch, trie commit, snapshot flatten, freezer cycle) and every key-value write boundary inside a call on random trees (memory store, crash images judged by the Rec* invariants of ChainTrace.tla); torn key-value batches and torn freezer files are not generated (C24/C20 territory). Snap-sync pivots are not modelled. Runs reopen in child processes because log.Crit exits. Index entries of an abandoned branch after a repair (C38-F1) are pending, see NOTES.md.",
     "design_ref": "3.6 C39",
 }
 
@@ -41,7 +41,39 @@ def run(ctx):
     # every replayed behaviour is a crash/restart history of the real code accepted by the specification step by step
     if not s.get("violations"):
         ctx.cov["traces_validated_against_impl"] += int(s.get("evaluations", 0))
+    # XF/V: crash inside a call.  On random trees / call sequences (driver of C38, memory key-value store) the
+    # store is copied after every write of randomly chosen calls; every copy is reopened with NewBlockChain and the
+    # recovered state is judged by the Rec* invariants of ChainTrace.tla (head state, head order, stored data closed,
+    # number index, no loss, lookups, re-import reaches the head of the node that did not crash, clean Stop).
+    drv38 = ctx.build("c38")
+    tp = os.path.join(ctx.scratch, "crashin.ndjson")
+    s2, _ = ctx.drive(drv38, ["-mode", "record", "-trace", tp, "-n", ctx.pick(150, 1500), "-steps", 12, "-blocks", 7, "-ntx", 3, "-crashin", 3],
+                      name="c38-crashin", timeout=ctx.pick(3600, 14400))
+    ok, consumed, total, r = ctx.validate("chain/ChainTrace", tp, cfg="chain/ChainTraceRec", ntraces=s2["traces"], timeout=ctx.pick(3000, 10800),
+                                          name="ChainTraceRec")
+    if not ok:
+        ctx.reject_trace("chain/ChainTrace", tp, consumed, r, cfg="chain/ChainTraceRec")
+    # TODO-KNOWN-FINDING C39-F4 (pending coordinator decision): kept replays of crashes inside reorg / SetCanonical
+    fp = os.path.join(ctx.scratch, "C39-F4.ndjson")
+    fs, _ = ctx.drive(drv38, ["-mode", "scenario", "-in", os.path.join(os.path.dirname(os.path.dirname(os.path.abspath(__file__))), "spec", "chain", "findings", "C39-F4.json"),
+                              "-trace", fp], name="c38-C39-F4", timeout=1800)
+    ok, consumed, total, r = ctx.validate("chain/ChainTrace", fp, cfg="chain/ChainTraceRec", ntraces=fs["traces"], timeout=1800, name="ChainTraceRec-C39-F4")
+    if not ok:
+        ctx.reject_trace("chain/ChainTrace", fp, consumed, r, cfg="chain/ChainTraceRec", desc="C39-F4 replay is no longer a behaviour of Chain.tla")
+    else:
+        ok2, c2, t2, r2 = ctx.validate("chain/ChainTrace", fp, cfg="chain/ChainTraceRecStrict", ntraces=0, timeout=1800, name="ChainTraceRecStrict-C39-F4")
+        viol = r2.violated or ""
+        if ok2:
+            ctx.notes.append("C39-F4: no longer reproduces (strict Rec* invariants hold on the kept replay)")
+        elif any(e in viol for e in ("RecCanonHasHeads", "RecCanonLinked", "RecCanonEndsAtHead", "RecStopsStrict", "RecHealsStrict", "RecLookupSound")):
+            line = ("PENDING-FINDING property=C39 C39-F4 reproduced on the real code (%s): a crash between the batches of reorg/SetCanonical "
+                    "leaves a head without number index entries (Stop then dereferences nil)" % viol.strip()[:60])
+            print(line)
+            ctx.notes.append(line)
+        else:
+            ctx.reject_trace("chain/ChainTrace", fp, c2, r2, cfg="chain/ChainTraceRecStrict", desc="C39-F4 replay violates an unexpected property: %s" % viol)
     return ctx.finish(rule="MC: all scenarios of the bound (main line <= MaxC, side chain <= MaxS, any order of import/commit/flatten/freeze/crash, <= 2 crashes); R: TLC-sampled behaviours on longer chains, each followed by re-import and comparison with a never-crashed node",
-                      assumptions=["crash points are call boundaries; no torn batches / torn freezer files",
+                      assumptions=["freezer scenarios: crash points are call boundaries; crash inside a call: every key-value write boundary of the call (memory store, no freezer); no torn batches / torn freezer files",
+                                   "C39-F4 pending: index claims on crash images are made for calls that do not reorganise or rewind",
                                    "no snap-sync pivot; ethash faker; pebble + freezer on local disk",
                                    "C38-F1 pending: strict index invariants are checked until a head is written without reorg below a higher head header"])
